@@ -357,7 +357,19 @@ class Scheduler:
             # call outside pgen2 - the tokenizer run over the grammar text, which is where the first
             # token collection of a process is created - is traced and pre-emptible like any other.
             if fn.startswith(self.pgen):
-                t = 2 if (self.pgen_atomic and code.co_name == 'generate_grammar') else 0
+                # Measured per function over several runs: only _make_dfas, _simplify_dfas, unifystate and
+                # DFAState.__eq__ execute an address-dependent number of lines (they iterate over sets of
+                # NFA states).  Those are one step each (with everything they call); the rest of the table
+                # generation - reading the grammar file, _make_transition, the first-plan and traversal
+                # calculations - is traced and pre-emptible like any other code.
+                if self.pgen_atomic and code.co_name == 'generate_grammar':
+                    t = 2
+                elif code.co_name in ('_make_dfas', '_simplify_dfas'):
+                    t = 2
+                elif code.co_name in ('unifystate', '__eq__'):
+                    t = 0
+                else:
+                    t = 1
             else:
                 t = 1 if fn.startswith(self.base) else 0
             self._traced[code] = t
@@ -550,7 +562,37 @@ FIRST_USE_MODULES = ('parso.grammar', 'parso.python.tokenize')
 DEFAULT_RECURSION_LIMIT = 1000
 
 
+_PGEN_PATCHED = [False]
+
+
+def _deterministic_pgen():
+    """The parser generator iterates over sets of NFAState objects, which hash by address: the order in
+    which it works through them - not the language it generates - differs from run to run.  Inside the
+    simulation the states hash by their creation number instead, which fixes that order (any fixed order
+    is one the real code can take) and makes the whole table generation repeatable line by line."""
+    if _PGEN_PATCHED[0]:
+        return
+    import itertools
+    from parso.pgen2 import grammar_parser as gp
+    counter = itertools.count(1)
+    orig_init = gp.NFAState.__init__
+
+    def __init__(self, from_rule):
+        orig_init(self, from_rule)
+        self._creation_number = next(counter)
+
+    def __hash__(self):
+        return self._creation_number
+
+    __init__.__qualname__ = 'NFAState.__init__'
+    __hash__.__qualname__ = 'NFAState.__hash__'
+    gp.NFAState.__init__ = __init__
+    gp.NFAState.__hash__ = __hash__
+    _PGEN_PATCHED[0] = True
+
+
 def _apply_warn_error(plan):
+    _deterministic_pgen()
     # an application that runs with -W error (pytest's filterwarnings = error, python -X dev ...)
     if plan['config'].get('warn_error'):
         import warnings
@@ -1102,6 +1144,81 @@ def run_scan(seed, tier, scan=None):
     return last_plan, res
 
 
+def run_cross(seed, tier):
+    """Two *different* calls, each profiled alone: a warm one on one version and a cold one (first use
+    of another version).  For pairs of write events (one of each call) thread 0 is parked in its window,
+    thread 1 runs into its own window, thread 0 runs to its end, then thread 1 - and the same with the
+    roles swapped.  This is the schedule that two separately protected critical sections over the same
+    process-wide value need (enter A, enter B, leave A, leave B)."""
+    import copy
+    rng = random.Random('C18-cross/%d' % seed)
+    v_cold, v_warm = rng.sample(corpus.VERSIONS, 2)
+    texts = STATEFUL_TEXTS + corpus.SNIPPETS
+    a = {'k': rng.choice(['errors', 'errors', 'pep8', 'custom']), 'v': v_warm,
+         'text': rng.choice([STATEFUL_TEXTS[-1], scan_chunks()[rng.randrange(len(scan_chunks()))], rng.choice(texts)])}
+    b = {'k': rng.choice(['load', 'errors', 'loadpath', 'tokenize', 'pep8']), 'v': v_cold, 'text': rng.choice(texts)}
+    cfg = {'quantum': rng.choice([30, 300, 3000]), 'warm': [v_warm], 'first': 0, 'sequential': False, 'perm': None, 'rounds': 1,
+           'pgen_atomic': False, 'burst': 0, 'newline_p': 0.0, 'freeze_p': 0.0, 'warn_error': rng.random() < 0.3, 'cross': True}
+    base = {'sim': 'threadsim', 'seed': seed, 'config': cfg, 'threads': [[a], [b]], 'switches': [], 'more': []}
+    stats = {'scan.plans': 1, 'scan.cross': 1}
+    res = {'violation': None, 'harness_error': None, 'digest': '', 'steps': 0, 'nontrivial': False,
+           'switch_digest': '', 'switches': 0, 'nontrivial_switches': 0, 'stats': stats}
+    profs = []
+    for op in (a, b):
+        pr = _in_child(child_profile, dict(base, threads=[[op]]))
+        if pr[0] != 'ok' or pr[1][0]['error']:
+            res['harness_error'] = 'profile child failed: %r' % (pr[1],)
+            return base, res
+        profs.append(pr[1][0])
+        stats['scan.calls_profiled'] = stats.get('scan.calls_profiled', 0) + 1
+        stats['scan.lines_profiled'] = stats.get('scan.lines_profiled', 0) + pr[1][0]['steps']
+        res['steps'] += pr[1][0]['steps']
+    dig = hashlib.sha1(repr([(p['steps'], [e[0] for e in p['events']]) for p in profs]).encode())
+
+    def picks(events, n):
+        by_loc = {}
+        for (step, lab, fn, line) in events:
+            by_loc.setdefault((lab.split(' (within')[0].split(' (')[0], fn, line), []).append(step)
+        out = []
+        for i in range(3):
+            for key, steps in by_loc.items():
+                if i < len(steps) and steps[i * (len(steps) // 3 or 1) % len(steps)] not in out:
+                    out.append(steps[i * (len(steps) // 3 or 1) % len(steps)])
+        return out[:n]
+    ea, eb = picks(profs[0]['events'], 4), picks(profs[1]['events'], 4)
+    if not ea or not eb:
+        res['digest'] = dig.hexdigest()
+        return base, res
+    ref = _in_child(child_reference, base)
+    limit = 8 if tier == 'quick' else 16
+    pairs = [(x, y, first) for x in ea for y in eb for first in (0, 1)]
+    rng.shuffle(pairs)
+    last = base
+    for n, (sa, sb, first) in enumerate(pairs[:limit]):
+        if _late():
+            break
+        p = copy.deepcopy(base)
+        p['config']['first'] = first
+        p['config']['directed_at'] = ['cross', sa, sb, first]
+        p['switches'] = [[sa, 0], [sb, 0], [INF, 0]] if first == 0 else [[sb, 0], [sa, 0], [INF, 0]]
+        r = evaluate(p, True, seed * 131 + n, reference=ref)
+        stats['scan.cross_runs'] = stats.get('scan.cross_runs', 0) + 1
+        last = p
+        if r['harness_error']:
+            res['harness_error'] = r['harness_error']
+            return p, res
+        for k in ('steps', 'switches', 'nontrivial_switches'):
+            res[k] += r.get(k, 0)
+        res['nontrivial'] = res['nontrivial'] or r['nontrivial']
+        dig.update(r['digest'].encode())
+        if r['violation'] is not None:
+            res['violation'] = r['violation']
+            res['digest'] = r['digest']
+            return p, res
+    res['digest'] = dig.hexdigest()
+    return last, res
+
+
 # ---------------------------------------------------------------------------
 # one run + oracle
 # ---------------------------------------------------------------------------
@@ -1204,6 +1321,8 @@ def _short(o):
 
 
 def run_seed(seed, tier):
+    if seed % 4 == 3 and (seed // 4) % 6 == 5:
+        return run_cross(seed, tier)
     if seed % 4 == 3:
         return run_scan(seed, tier)
     plan = make_plan(seed, tier)
@@ -1403,7 +1522,7 @@ def digest_batch(tier, seeds):
     for s in seeds:
         plan, res = run_seed(s, tier)
         if s % 4 == 3 and res['violation'] is None:
-            res2 = run_seed(s, tier)[1]          # a scan plan: profile + directed runs, executed twice
+            res2 = run_seed(s, tier)[1]          # a scan / cross plan: profile + directed runs, executed twice
         else:
             res2 = replay_plan(plan)
         out.append((s, res['digest'], res2['digest'], res['violation'] and res['violation']['sig']))
